@@ -620,3 +620,31 @@ class VC:
         s = z3.Solver()
         s.add(z3.Not(self.formula))
         return s.to_smt2()
+
+    def cross_check(self, timeout_s=60):
+        """re-decides the query with independent solver builds (/usr/bin/z3 4.8.12, cvc5 binary) from its
+        SMT-LIB2 text.  -> dict solver -> 'unsat'|'sat'|'unknown'|'error'.  Any '(error' in the output is an error."""
+        import os
+        import subprocess
+        import tempfile
+        text = "(set-logic ALL)\n" + self.smt2()
+        out = {}
+        fd, path = tempfile.mkstemp(suffix=".smt2", prefix="verif-vc-")
+        try:
+            with os.fdopen(fd, "w") as f:
+                f.write(text)
+            for name, cmd in (("z3-4.8.12", ["/usr/bin/z3", "-T:%d" % timeout_s, path]),
+                              ("cvc5", ["cvc5", "--tlimit=%d" % (timeout_s * 1000), path])):
+                try:
+                    p = subprocess.run(cmd, capture_output=True, text=True, timeout=timeout_s + 10)
+                    o = (p.stdout + p.stderr).strip()
+                    if "(error" in o or "rror" in o.split("\n")[0][:40]:
+                        out[name] = "error"
+                    else:
+                        first = o.split("\n")[0].strip() if o else "unknown"
+                        out[name] = first if first in ("sat", "unsat", "unknown") else "unknown"
+                except Exception:
+                    out[name] = "unknown"
+        finally:
+            os.unlink(path)
+        return out
